@@ -44,6 +44,10 @@ type World struct {
 	// gives. Nothing can be created there and a pipe cannot seek.
 	FifoRoot string
 	FifoSrc  string
+	// Quota gives directories that sit on a small file system: the files
+	// below such a directory can hold that many bytes together, a write
+	// that needs more is cut short with ENOSPC. Creating files still works.
+	Quota    map[string]int
 	Files    map[string]*Inode
 	Dirs     map[string]bool
 	ReadOnly map[string]bool // directories in which nothing can be created
@@ -252,4 +256,25 @@ func (w *World) Snapshot(prefix string) map[string][]byte {
 		m[p] = append([]byte(nil), w.Files[p].Data...)
 	}
 	return m
+}
+
+// room returns how many bytes the file at path may still grow by, or -1 if
+// no quota applies.
+func (w *World) room(path string) int {
+	for dir, capacity := range w.Quota {
+		if !under(path, dir) {
+			continue
+		}
+		used := 0
+		for p, ino := range w.Files {
+			if under(p, dir) {
+				used += len(ino.Data)
+			}
+		}
+		if used >= capacity {
+			return 0
+		}
+		return capacity - used
+	}
+	return -1
 }
